@@ -47,17 +47,17 @@ func main() {
 	part1(rp, st1)
 	progress("part 1 VerifyCommit", t)
 
-	// ---- part 3 (before the long search, so that a deadline cuts the search and not the call sites) ----
+	// ---- part 2 ----
+	t = time.Now()
+	states, trans, searches := part2(r)
+	progress("part 2 VoteSet", t)
+
+	// ---- part 3 ----
 	t = time.Now()
 	st3a, st3b := &p3stats{}, &p3stats{}
 	part3(rp, st3a, st3b)
 	rp.flush()
 	progress("part 3 call sites", t)
-
-	// ---- part 2 ----
-	t = time.Now()
-	states, trans, searches := part2(r)
-	progress("part 2 VoteSet", t)
 
 	if r.Expired() {
 		r.Capped("deadline reached; parts finished before it are complete, see voteset_searches[].depth_completed")
@@ -124,7 +124,7 @@ func part1(rp *reporter, st *p1stats) {
 	// (a) the full slot alphabet
 	var full [][]int64
 	if r.Quick() {
-		full = [][]int64{{1}, {1, 1}, {1, 2}, {1, 1, 1}, {1, 2, 3}, {1, 1, 1, 1}, {1, 2, 3, 5}}
+		full = [][]int64{{1}, {1, 1}, {1, 2}, {1, 1, 1}, {1, 2, 3}, {1, 2, 3, 5}}
 	} else {
 		for n := 1; n <= 3; n++ {
 			full = append(full, powerVectors(n)...)
@@ -146,13 +146,14 @@ func part1(rp *reporter, st *p1stats) {
 		}
 		runVerifyCommit(rp, st, newWorld(pv), all, claimed)
 	}
-	// (b) threshold arithmetic: every power vector over {1,2,3,5}; slots in {absent, nil, A, B} (quick) / all correctly
-	// signed variants (thorough). Slots that are not correctly signed precommits of the right height make VerifyCommit
+	// (b) threshold arithmetic: every power vector over {1,2,3,5}; slots in {absent, nil, A}, claimed A, i.e. every subset
+	// of the validators voting for the block and every subset of the rest voting for something else (quick) / all correctly
+	// signed variants x all claimed ids (thorough). Slots that are not correctly signed precommits of the right height make VerifyCommit
 	// fail whatever the powers are, so (a) x (b) covers the product.
 	for n := 1; n <= 4; n++ {
 		for _, pv := range powerVectors(n) {
 			if r.Quick() {
-				runVerifyCommit(rp, st, newWorld(pv), 4, []int{idA, idB})
+				runVerifyCommit(rp, st, newWorld(pv), 3, []int{idA})
 			} else if n == 4 {
 				runVerifyCommit(rp, st, newWorld(pv), numClean, claimed)
 			}
@@ -236,10 +237,9 @@ func part2(r *vk.Run) (states, trans int, per []interface{}) {
 			{[]int64{1, 1}, pc, 5, true},
 			{[]int64{3, 1}, pc, 5, true},
 			{[]int64{1<<62 - 2, 1}, pc, 4, true},
-			{[]int64{1 << 61, 1<<61 - 1}, pc, 4, true},
-			{[]int64{1, 1, 1}, pc, 5, true},
+			{[]int64{1 << 61, 1<<61 - 1}, pc, 3, true},
+			{[]int64{1, 1, 1}, pc, 4, true},
 			{[]int64{3, 1, 1}, pc, 4, true},
-			{[]int64{1, 1, 1, 1}, pc, 4, false},
 			{[]int64{5, 1, 1, 1}, pc, 4, false},
 		}
 	} else {
